@@ -19,6 +19,7 @@ func init() {
 			ruleContribClosed("C01.table"),
 			ruleOpenGuard("C01.open-guard"),
 			ruleRing("C01.ring", 25, whyRing),
+			ruleSweepOrder("C01.order"),
 			ruleDead("C01.live", nil, sweepLive, 60, "these calls are the sweep and its self-intersection/join repair; a constant-dead one silently disables that repair for every input"),
 		},
 	})
@@ -129,8 +130,10 @@ func init() {
 			ruleForbidden("C17.det", true),
 			ruleNoGlobalWrites("C17.det.globals"),
 			ruleLessStrict("C17.cmp", 2),
+			ruleSweepOrder("C17.order"),
 			ruleCmp3("C17.cmp3"),
-			ruleFillRuleMirror("C17.mirror.switch", 8),
+			ruleFillRuleMirror("C17.mirror.switch", 4),
+			ruleIntersectMirror("C17.mirror.intersect"),
 			ruleContribSym("C17"),
 		},
 	})
